@@ -62,7 +62,7 @@ def main():
             pwargs = ['-p', sc['pw']] if 'pw' in sc else []
             if 'keyfile' in sc:
                 open(os.path.join(work, 'key.txt'), 'wb').write(bytes(sc['keyfile'])); pwargs = ['-k', 'key.txt']
-            what = sc['what']          # roundtrip | wrongpw | flip | trunc | extend | fault_enc | fault_dec
+            what = sc['what']          # roundtrip | wrongpw | wrongkeyfile | flip | trunc | extend | fault_enc | fault_dec
             fault = sc.get('fault')
             if sc.get('preexist') and what == 'fault_enc': open(enc, 'wb').write(b'an older file under the output name\n' * 40)
             if 'pipe_enc' in sc: rc_e, so, se_e, trip_e = run_piped([CRYPT, '-e'] + pwargs + ['-o', enc, '-'], content, sc['pipe_enc'])
@@ -84,6 +84,8 @@ def main():
                     elif what == 'extend': data += bytes(sc['extra'])
                     open(enc, 'wb').write(bytes(data))
                 dpw = ['-p', sc['pw2']] if what == 'wrongpw' else pwargs
+                if what == 'wrongkeyfile':
+                    open(os.path.join(work, 'key2.txt'), 'wb').write(bytes(sc['keyfile2'])); dpw = ['-k', 'key2.txt']
                 if sc.get('preexist'): open(dec, 'wb').write(b'an older file under the output name\n' * 40)
                 if 'pipe_dec' in sc: rc_d, so, se_d, trip_d = run_piped([CRYPT, '-d'] + dpw + ['-o', dec, '-'], open(enc, 'rb').read(), sc['pipe_dec'])
                 else: rc_d, so, se_d, trip_d = run([CRYPT, '-d'] + dpw + ['-o', dec, enc], fault if what == 'fault_dec' else None)
@@ -116,6 +118,20 @@ def main():
             else:
                 rc, so, trip = srun([SUM, '-' + sc['alg'], name])
                 ev.update({'alg': sc['alg'], 'check': 0, 'k': sc['k'], 'size': len(content), 'exit': rc, 'tripped': trip, 'reported_ok': 0, 'printed': 1 if name in so else 0})
+        elif kind == 'summany':
+            # many arguments of which nfail cannot be processed (hash mode: missing files; check mode: lists naming a
+            # modified file), in between arguments that can: the exit status must say so for EVERY count
+            nfail = sc['nfail']; good = os.path.join(work, 'good.txt'); open(good, 'wb').write(b'good\n')
+            if sc.get('check'):
+                rc0, so0, se0, _ = run([SUM, '-' + sc['alg'], 'good.txt'])
+                open(os.path.join(work, 'ok.sum'), 'wb').write(so0)
+                bad = so0[:1].replace(b'0', b'1') if so0[:1] == b'0' else b'0'
+                open(os.path.join(work, 'bad.sum'), 'wb').write(bad + so0[1:])
+                args = [SUM, '-' + sc['alg'] + 'c', 'ok.sum'] + ['bad.sum'] * nfail + ['ok.sum']
+            else:
+                args = [SUM, '-' + sc['alg'], 'good.txt'] + ['missing-%d' % i for i in range(nfail)] + ['good.txt']
+            rc, so, se, _ = run(args)
+            ev.update({'alg': sc['alg'], 'check': 1 if sc.get('check') else 0, 'nfail': nfail, 'exit': rc, 'good_lines': so.count(b'good.txt')})
         elif kind == 'sumwritefault':
             # the k-th write to standard output (a regular file) fails: the digests / verdicts are lost
             n = sc['nfiles']
